@@ -372,7 +372,16 @@ def judge(ex, rec, tally):
                 else:
                     tally('interpretation_only:update_displaced_live_contact')
             elif any(p not in rec.probed for p in lost):
-                tally('interpretation_only:displaced_without_probe')
+                # The op's outcome says "every probe that is made fails"; a contact that was never probed
+                # received no ping at all, so the environment in which it is alive and only the probed
+                # contacts are dead is indistinguishable to the code and lies inside the quantifier (every
+                # outcome of the liveness probe): a live contact was displaced without being asked.
+                if not same_id:
+                    out.append(({'kind': 'eviction', 'newcomer': shape, 'probed': False, 'unprobed_victim': True},
+                                f'add({shape}) displaced {sum(1 for p in lost if p not in rec.probed)} contact(s) at '
+                                f'other addresses that were never pinged (only the pinged contact failed)'))
+                else:
+                    tally('interpretation_only:update_displaced_unprobed_contact')
         # admission: closer than the K-th closest known contact (or fewer than K known) => admitted
         kth = ref.kth_closest_distance(ex.own, [p.node_id for p in known], ex.K)
         dnew = ref.xor_distance(ex.own, new.node_id)
